@@ -73,10 +73,7 @@ func (v *VUrl) validate(value string) *VUrl {
 	if queryIndex != -1 {
 		urlQuery = decUrl[queryIndex+1:]
 	}
-	if urlQuery == "" {
-		return v
-	}
-
+	seen := make(map[string]struct{})
 	var key, val string
 	for _, query := range strings.Split(urlQuery, "&") {
 		key = ""
@@ -89,6 +86,7 @@ func (v *VUrl) validate(value string) *VUrl {
 		if l > 1 {
 			val = key2val[1]
 		}
+		seen[key] = struct{}{}
 
 		validNames := v.ruleObj.Get(key)
 		if validNames == "" {
@@ -139,6 +137,7 @@ func (v *VUrl) validate(value string) *VUrl {
 			fn(v.errBuf, validName, "", key, reflect.ValueOf(val))
 		}
 	}
+	requiredMissing(v.errBuf, v.ruleObj, seen, func(key string) string { return key })
 	return v
 }
 
